@@ -61,7 +61,19 @@ const SHAPES: &[&[&str]] = &[
     &["c", "k.x", "b"],
     &["a", "b", "c", "k.x"],
     &["a", "a"],
+    &["a00", "a01", "a02", "a03", "a04", "a05", "a06", "a07", "a08", "a09", "a10", "a11", "a12", "a13", "a14", "a15", "a16", "a17", "a18", "a19"],
+    &["b00", "b01", "b02", "b03", "b04", "b05", "b06", "b07", "b08", "b09", "b10", "b11", "b12", "b13", "b14", "b15", "b16", "b17", "b18", "b19"],
+    &["a00", "a02", "a04", "a06", "a08", "a10", "a12", "a14", "a16", "a18", "a", "b", "b01", "b03", "b05", "b07", "b09", "b11", "b13", "b15", "b17", "b19"],
+    &["w00", "w01", "w02", "w03", "w04", "w05", "w06", "w07", "w08", "w09", "w10", "w11", "w12", "w13", "w14", "w15", "w16", "w17", "w18", "w19", "w20", "w21", "w22", "w23", "w24", "w25", "w26", "w27", "w28", "w29", "w30", "w31"],
+    &["A", "ab", "k", "a"],
+    &["k", "k.x", "ab", "a0"],
 ];
+
+/// shapes with 20 or more fields: two of them nested (or the 32-field one alone) push a span's map past 28
+/// entries, i.e. past the 32-slot capacity step of `IndexMap`
+const WIDE_SHAPES: &[usize] = &[12, 13, 14, 15];
+/// shapes whose field names are near misses of each other and of the allow-list names (case, prefix, dot)
+const NEAR_SHAPES: &[usize] = &[16, 17];
 
 #[allow(unused_variables)]
 fn make_span(shape: usize, p: Par<'_>, v: &[&dyn Value]) -> Span {
@@ -78,6 +90,12 @@ fn make_span(shape: usize, p: Par<'_>, v: &[&dyn Value]) -> Span {
         9 => shape!(p, v; c = 0, k.x = 1, b = 2),
         10 => shape!(p, v; a = 0, b = 1, c = 2, k.x = 3),
         11 => shape!(p, v; a = 0, a = 1),
+        12 => shape!(p, v; a00 = 0, a01 = 1, a02 = 2, a03 = 3, a04 = 4, a05 = 5, a06 = 6, a07 = 7, a08 = 8, a09 = 9, a10 = 10, a11 = 11, a12 = 12, a13 = 13, a14 = 14, a15 = 15, a16 = 16, a17 = 17, a18 = 18, a19 = 19),
+        13 => shape!(p, v; b00 = 0, b01 = 1, b02 = 2, b03 = 3, b04 = 4, b05 = 5, b06 = 6, b07 = 7, b08 = 8, b09 = 9, b10 = 10, b11 = 11, b12 = 12, b13 = 13, b14 = 14, b15 = 15, b16 = 16, b17 = 17, b18 = 18, b19 = 19),
+        14 => shape!(p, v; a00 = 0, a02 = 1, a04 = 2, a06 = 3, a08 = 4, a10 = 5, a12 = 6, a14 = 7, a16 = 8, a18 = 9, a = 10, b = 11, b01 = 12, b03 = 13, b05 = 14, b07 = 15, b09 = 16, b11 = 17, b13 = 18, b15 = 19, b17 = 20, b19 = 21),
+        15 => shape!(p, v; w00 = 0, w01 = 1, w02 = 2, w03 = 3, w04 = 4, w05 = 5, w06 = 6, w07 = 7, w08 = 8, w09 = 9, w10 = 10, w11 = 11, w12 = 12, w13 = 13, w14 = 14, w15 = 15, w16 = 16, w17 = 17, w18 = 18, w19 = 19, w20 = 20, w21 = 21, w22 = 22, w23 = 23, w24 = 24, w25 = 25, w26 = 26, w27 = 27, w28 = 28, w29 = 29, w30 = 30, w31 = 31),
+        16 => shape!(p, v; A = 0, ab = 1, k = 2, a = 3),
+        17 => shape!(p, v; k = 0, k.x = 1, ab = 2, a0 = 3),
         _ => unreachable!(),
     }
 }
@@ -186,12 +204,15 @@ enum POp {
     Enter { t: usize, id: usize },
     Exit { t: usize, id: usize },
     Emit { t: usize, how: usize, name: String, labels: Vec<(String, String)> },
+    /// the harness drops its (only) handle of the span; the generator only does this to a span that is on no
+    /// stack and has no live child, so the registry closes it at once
+    Close { t: usize, id: usize },
 }
 
 impl POp {
     fn thread(&self) -> usize {
         match self {
-            POp::New { t, .. } | POp::Rec { t, .. } | POp::Enter { t, .. } | POp::Exit { t, .. } | POp::Emit { t, .. } => *t,
+            POp::New { t, .. } | POp::Rec { t, .. } | POp::Enter { t, .. } | POp::Exit { t, .. } | POp::Emit { t, .. } | POp::Close { t, .. } => *t,
         }
     }
 }
@@ -207,6 +228,8 @@ enum FilterSpec {
 struct Program {
     filter: FilterSpec,
     threads: usize,
+    /// false: the subscriber is a bare `registry()` without a `MetricsLayer`
+    layer: bool,
     ops: Vec<POp>,
 }
 
@@ -241,38 +264,102 @@ impl FilterSpec {
 
 #[derive(Clone, Debug, PartialEq)]
 struct Logged {
+    /// c/g/h = register_*, C/G/H = an operation on a handle the recorder returned, d = describe_*
     kind: char,
     name: String,
     labels: Vec<(String, String)>,
+    /// handle operation and value / unit and description
+    value: Option<String>,
+    /// (target, module_path) of the metadata a register call carried
+    meta: Option<(String, Option<String>)>,
+}
+
+/// the handle the inner recorder hands out: every operation on it is logged under the key it was registered with
+struct LogHandle {
+    log: Arc<Mutex<Vec<Logged>>>,
+    kind: char,
+    name: String,
+    labels: Vec<(String, String)>,
+}
+impl LogHandle {
+    fn push(&self, value: String) {
+        self.log.lock().unwrap().push(Logged {
+            kind: self.kind,
+            name: self.name.clone(),
+            labels: self.labels.clone(),
+            value: Some(value),
+            meta: None,
+        });
+    }
+}
+impl metrics::CounterFn for LogHandle {
+    fn increment(&self, v: u64) {
+        self.push(format!("increment:{}", v))
+    }
+    fn absolute(&self, v: u64) {
+        self.push(format!("absolute:{}", v))
+    }
+}
+impl metrics::GaugeFn for LogHandle {
+    fn increment(&self, v: f64) {
+        self.push(format!("increment:{:016x}", v.to_bits()))
+    }
+    fn decrement(&self, v: f64) {
+        self.push(format!("decrement:{:016x}", v.to_bits()))
+    }
+    fn set(&self, v: f64) {
+        self.push(format!("set:{:016x}", v.to_bits()))
+    }
+}
+impl metrics::HistogramFn for LogHandle {
+    fn record(&self, v: f64) {
+        self.push(format!("record:{:016x}", v.to_bits()))
+    }
 }
 
 struct LogRecorder {
     log: Arc<Mutex<Vec<Logged>>>,
 }
 impl LogRecorder {
-    fn push(&self, kind: char, key: &Key) {
+    fn push(&self, kind: char, key: &Key, md: &Metadata<'_>) -> Arc<LogHandle> {
+        let labels: Vec<(String, String)> = key.labels().map(|l| (l.key().to_string(), l.value().to_string())).collect();
         self.log.lock().unwrap().push(Logged {
             kind,
             name: key.name().to_string(),
-            labels: key.labels().map(|l| (l.key().to_string(), l.value().to_string())).collect(),
+            labels: labels.clone(),
+            value: None,
+            meta: Some((md.target().to_string(), md.module_path().map(|m| m.to_string()))),
+        });
+        Arc::new(LogHandle { log: self.log.clone(), kind: kind.to_ascii_uppercase(), name: key.name().to_string(), labels })
+    }
+    fn describe(&self, what: &str, name: KeyName, unit: Option<Unit>, desc: SharedString) {
+        self.log.lock().unwrap().push(Logged {
+            kind: 'd',
+            name: name.as_str().to_string(),
+            labels: vec![],
+            value: Some(format!("{}|{:?}|{}", what, unit, desc)),
+            meta: None,
         });
     }
 }
 impl Recorder for LogRecorder {
-    fn describe_counter(&self, _: KeyName, _: Option<Unit>, _: SharedString) {}
-    fn describe_gauge(&self, _: KeyName, _: Option<Unit>, _: SharedString) {}
-    fn describe_histogram(&self, _: KeyName, _: Option<Unit>, _: SharedString) {}
-    fn register_counter(&self, key: &Key, _: &Metadata<'_>) -> Counter {
-        self.push('c', key);
-        Counter::noop()
+    fn describe_counter(&self, n: KeyName, u: Option<Unit>, d: SharedString) {
+        self.describe("counter", n, u, d)
     }
-    fn register_gauge(&self, key: &Key, _: &Metadata<'_>) -> Gauge {
-        self.push('g', key);
-        Gauge::noop()
+    fn describe_gauge(&self, n: KeyName, u: Option<Unit>, d: SharedString) {
+        self.describe("gauge", n, u, d)
     }
-    fn register_histogram(&self, key: &Key, _: &Metadata<'_>) -> Histogram {
-        self.push('h', key);
-        Histogram::noop()
+    fn describe_histogram(&self, n: KeyName, u: Option<Unit>, d: SharedString) {
+        self.describe("histogram", n, u, d)
+    }
+    fn register_counter(&self, key: &Key, md: &Metadata<'_>) -> Counter {
+        Counter::from_arc(self.push('c', key, md))
+    }
+    fn register_gauge(&self, key: &Key, md: &Metadata<'_>) -> Gauge {
+        Gauge::from_arc(self.push('g', key, md))
+    }
+    fn register_histogram(&self, key: &Key, md: &Metadata<'_>) -> Histogram {
+        Histogram::from_arc(self.push('h', key, md))
     }
 }
 
@@ -281,7 +368,8 @@ impl Recorder for LogRecorder {
 
 struct Shared {
     dispatch: Dispatch,
-    spans: Mutex<Vec<Span>>,
+    spans: Mutex<Vec<Option<Span>>>,
+    layer: bool,
     log: Arc<Mutex<Vec<Logged>>>,
 }
 
@@ -291,6 +379,8 @@ struct Ans {
     cur_after: Option<usize>,
     map: Option<Vec<(String, String)>>,
     emitted: Vec<Logged>,
+    /// Close: the registry no longer knows the span's id right after the handle was dropped
+    closed: Option<bool>,
 }
 
 fn span_map(dispatch: &Dispatch, span: &Span) -> Option<Vec<(String, String)>> {
@@ -305,7 +395,7 @@ fn span_map(dispatch: &Dispatch, span: &Span) -> Option<Vec<(String, String)>> {
 fn current_index(sh: &Shared) -> Option<usize> {
     let cur = Span::current();
     let id = cur.id()?;
-    sh.spans.lock().unwrap().iter().position(|s| s.id().as_ref() == Some(&id))
+    sh.spans.lock().unwrap().iter().position(|s| s.as_ref().and_then(|s| s.id()).as_ref() == Some(&id))
 }
 
 static META: Metadata<'static> = Metadata::new("mv", metrics::Level::INFO, Some("mv::c17"));
@@ -321,39 +411,50 @@ fn exec_op(sh: &Shared, op: &POp) -> Ans {
                 let p = match parent {
                     ParSpec::Ctx => Par::Ctx,
                     ParSpec::Root => Par::Root,
-                    ParSpec::Of(i) => Par::Of(&spans[*i]),
+                    ParSpec::Of(i) => Par::Of(spans[*i].as_ref().expect("parent span was closed")),
                 };
                 make_span(*shape, p, &refs)
             };
             ans.map = span_map(&sh.dispatch, &span);
-            sh.spans.lock().unwrap().push(span);
+            sh.spans.lock().unwrap().push(Some(span));
         }
         POp::Rec { id, field, val, .. } => {
-            let span = sh.spans.lock().unwrap()[*id].clone();
+            let span = sh.spans.lock().unwrap()[*id].clone().expect("span was closed");
             let b = val.boxed();
             span.record(*field, &*b);
             ans.map = span_map(&sh.dispatch, &span);
         }
         POp::Enter { id, .. } => {
-            let span = sh.spans.lock().unwrap()[*id].clone();
+            let span = sh.spans.lock().unwrap()[*id].clone().expect("span was closed");
             span.with_subscriber(|(id, d)| d.enter(id));
         }
         POp::Exit { id, .. } => {
-            let span = sh.spans.lock().unwrap()[*id].clone();
+            let span = sh.spans.lock().unwrap()[*id].clone().expect("span was closed");
             span.with_subscriber(|(id, d)| d.exit(id));
+        }
+        POp::Close { id, .. } => {
+            let span = sh.spans.lock().unwrap()[*id].take().expect("span closed twice");
+            let sid = span.id();
+            drop(span);
+            // a bare `Registry` (no `Layered` around it, hence no `CloseGuard`) never frees the slot of a closed
+            // span, so closing is only observable under the layered subscriber
+            ans.closed = Some(match (sid, sh.dispatch.downcast_ref::<Registry>()) {
+                (Some(sid), Some(reg)) if sh.layer => reg.span(&sid).is_none(),
+                _ => true,
+            });
         }
         POp::Emit { how, name, labels, .. } => {
             let before = sh.log.lock().unwrap().len();
             let ls: Vec<Label> = labels.iter().map(|(k, v)| Label::new(k.clone(), v.clone())).collect();
             match how {
                 0 => {
-                    metrics::counter!(name.clone(), ls).increment(1);
+                    metrics::counter!(name.clone(), ls).increment(3);
                 }
                 1 => {
-                    metrics::gauge!(name.clone(), ls).set(1.0);
+                    metrics::gauge!(name.clone(), ls).set(2.5);
                 }
                 2 => {
-                    metrics::histogram!(name.clone(), ls).record(1.0);
+                    metrics::histogram!(name.clone(), ls).record(0.25);
                 }
                 3 => {
                     // `"k" => v` macro forms
@@ -369,7 +470,8 @@ fn exec_op(sh: &Shared, op: &POp) -> Ans {
                 _ => {
                     let key = Key::from_parts(name.clone(), ls);
                     metrics::with_recorder(|r| {
-                        let _ = r.register_histogram(&key, &META);
+                        r.describe_histogram(KeyName::from(name.clone()), Some(Unit::Bytes), SharedString::from(format!("about {}", name)));
+                        r.register_histogram(&key, &META).record(0.25);
                     });
                 }
             }
@@ -380,17 +482,29 @@ fn exec_op(sh: &Shared, op: &POp) -> Ans {
     ans
 }
 
-/// runs `prog` on fresh real objects; `f` is called on the driving thread after every op
-fn execute(prog: &Program, mut f: impl FnMut(usize, &POp, Ans)) {
-    let log = Arc::new(Mutex::new(Vec::new()));
-    let subscriber = tracing_subscriber::registry().with(MetricsLayer::new());
-    let shared = Shared { dispatch: Dispatch::new(subscriber), spans: Mutex::new(Vec::new()), log: log.clone() };
+fn build_recorder(filter: &FilterSpec, log: Arc<Mutex<Vec<Logged>>>) -> Box<dyn Recorder + Send + Sync> {
     let inner = LogRecorder { log };
-    let recorder: Box<dyn Recorder + Send + Sync> = match &prog.filter {
+    match filter {
         FilterSpec::All => Box::new(TracingContextLayer::all().layer(inner)),
         FilterSpec::Allow(names) => Box::new(TracingContextLayer::only_allow(names.iter()).layer(inner)),
         FilterSpec::Custom(m, r) => Box::new(TracingContextLayer::new(CustomFilter { m: *m, r: *r }).layer(inner)),
+    }
+}
+
+fn is_register(l: &Logged) -> bool {
+    matches!(l.kind, 'c' | 'g' | 'h')
+}
+
+/// runs `prog` on fresh real objects; `f` is called on the driving thread after every op
+fn execute(prog: &Program, mut f: impl FnMut(usize, &POp, Ans)) {
+    let log = Arc::new(Mutex::new(Vec::new()));
+    let dispatch = if prog.layer {
+        Dispatch::new(tracing_subscriber::registry().with(MetricsLayer::new()))
+    } else {
+        Dispatch::new(tracing_subscriber::registry())
     };
+    let shared = Shared { dispatch, spans: Mutex::new(Vec::new()), layer: prog.layer, log: log.clone() };
+    let recorder = build_recorder(&prog.filter, log);
     let shared = &shared;
     let recorder = &recorder;
     std::thread::scope(|sc| {
@@ -472,6 +586,11 @@ fn run_logged(prog: &Program, out: &mut Out) -> (Vec<Option<usize>>, Vec<Option<
         FilterSpec::Custom(..) => "filter:custom",
     });
     out.count(&format!("threads:{}", prog.threads));
+    if !prog.layer {
+        out.op("tracing nolayer", "ok");
+        out.count("subscriber without MetricsLayer");
+    }
+    let mut max_map = 0usize;
     let mut hists: Vec<Hist> = vec![];
     let mut resolved: Vec<Option<usize>> = vec![None; prog.ops.len()];
     let mut emitted: Vec<Option<Vec<(String, String)>>> = vec![None; prog.ops.len()];
@@ -502,7 +621,11 @@ fn run_logged(prog: &Program, out: &mut Out) -> (Vec<Option<usize>>, Vec<Option<
                 h.levels.extend(hists[p].levels.iter().cloned());
             }
             // oracle: the stored map is, as a set, what is visible by the property's rule
+            if prog.layer && map.is_none() {
+                fails.push(("a new span has no Labels extension under a subscriber with a MetricsLayer".into(), format!("op {}", i)));
+            }
             if let Some(m) = &map {
+                max_map = max_map.max(m.len());
                 let got: BTreeMap<String, String> = m.iter().cloned().collect();
                 if got.len() != m.len() {
                     fails.push(("span map has a repeated field name".into(), format!("op {} map {:?}", i, m)));
@@ -534,6 +657,9 @@ fn run_logged(prog: &Program, out: &mut Out) -> (Vec<Option<usize>>, Vec<Option<
         POp::Exit { t, id } => {
             lines.push((format!("tracing exit {} {}", t, id), opt_idx(a.cur_after)));
         }
+        POp::Close { t, id } => {
+            lines.push((format!("tracing close {} {}", t, id), (if a.closed == Some(true) { "closed" } else { "alive" }).to_string()));
+        }
         POp::Emit { t, how, name, labels } => {
             let line = format!("tracing emit {} {} {}", t, hexs(name), pairs(labels));
             let want_kind = match how {
@@ -541,18 +667,55 @@ fn run_logged(prog: &Program, out: &mut Out) -> (Vec<Option<usize>>, Vec<Option<
                 1 => 'g',
                 _ => 'h',
             };
-            if a.emitted.len() != 1 || a.emitted[0].kind != want_kind || &a.emitted[0].name != name {
+            let regs: Vec<&Logged> = a.emitted.iter().filter(|l| is_register(l)).collect();
+            if regs.len() != 1 || regs[0].kind != want_kind || &regs[0].name != name {
                 fails.push(("inner recorder did not receive exactly one register call of the emitted kind and name".into(),
                             format!("op {} got {:?}", i, a.emitted)));
                 lines.push((line, "no-single-register".into()));
                 return;
             }
-            let got = a.emitted[0].labels.clone();
+            let got = regs[0].labels.clone();
             lines.push((line, pairs(&got)));
             emitted[i] = Some(got.clone());
+            // the values of the metric reach the inner recorder: the handle the caller got is the one the inner
+            // recorder made for the key it was given, and the metadata / description pass through untouched
+            let want_value = match how {
+                0 => "increment:3".to_string(),
+                3 => "increment:1".to_string(),
+                1 => format!("set:{:016x}", 2.5f64.to_bits()),
+                _ => format!("record:{:016x}", 0.25f64.to_bits()),
+            };
+            let vals: Vec<&Logged> = a.emitted.iter().filter(|l| matches!(l.kind, 'C' | 'G' | 'H')).collect();
+            if vals.len() != 1
+                || vals[0].kind != want_kind.to_ascii_uppercase()
+                || &vals[0].name != name
+                || vals[0].labels != got
+                || vals[0].value.as_deref() != Some(want_value.as_str())
+            {
+                fails.push(("the value did not reach the inner recorder's handle for the key it registered".into(),
+                            format!("op {} want {} under {:?}, log {:?}", i, want_value, got, a.emitted)));
+            }
+            let want_meta = if *how == 4 {
+                (META.target().to_string(), META.module_path().map(|m| m.to_string()))
+            } else {
+                (module_path!().to_string(), Some(module_path!().to_string()))
+            };
+            if regs[0].meta.as_ref() != Some(&want_meta) {
+                fails.push(("the metadata of the register call was changed on the way to the inner recorder".into(),
+                            format!("op {} got {:?} want {:?}", i, regs[0].meta, want_meta)));
+            }
+            let descs: Vec<&Logged> = a.emitted.iter().filter(|l| l.kind == 'd').collect();
+            if *how == 4 {
+                let want = format!("histogram|{:?}|about {}", Some(Unit::Bytes), name);
+                if descs.len() != 1 || &descs[0].name != name || descs[0].value.as_deref() != Some(want.as_str()) {
+                    fails.push(("describe_histogram did not reach the inner recorder unchanged".into(), format!("op {} got {:?}", i, descs)));
+                }
+            } else if !descs.is_empty() {
+                fails.push(("a describe call appeared from nowhere".into(), format!("op {} got {:?}", i, descs)));
+            }
             let visible = match a.cur_before {
-                Some(c) => hists[c].visible(),
-                None => BTreeMap::new(),
+                Some(c) if prog.layer => hists[c].visible(),
+                _ => BTreeMap::new(),
             };
             let distinct = distinct_names(labels);
             if visible.is_empty() {
@@ -592,6 +755,24 @@ fn run_logged(prog: &Program, out: &mut Out) -> (Vec<Option<usize>>, Vec<Option<
     for (l, a) in &lines {
         out.op(l, a);
     }
+    out.count(match max_map {
+        0..=4 => "widest span map: 0-4",
+        5..=14 => "widest span map: 5-14",
+        15..=28 => "widest span map: 15-28",
+        _ => "widest span map: 29+ (capacity step past 32)",
+    });
+    // no default dispatcher at all on this thread: the key passes unchanged
+    {
+        let log = Arc::new(Mutex::new(Vec::new()));
+        let rec = build_recorder(&prog.filter, log.clone());
+        let own = vec![("a".to_string(), "own".to_string()), ("svc".to_string(), "x".to_string())];
+        let ls: Vec<Label> = own.iter().map(|(k, v)| Label::new(k.clone(), v.clone())).collect();
+        metrics::with_local_recorder(&*rec, || metrics::counter!("nodispatch", ls).increment(1));
+        let l = log.lock().unwrap();
+        if l.len() != 2 || l[0].labels != own || l[1].labels != own {
+            fails.push(("key changed although the thread has no subscriber".into(), format!("got {:?}", *l)));
+        }
+    }
     if nontrivial {
         out.nontrivial();
     }
@@ -619,7 +800,7 @@ fn check_thread_independence(prog: &Program, resolved: &[Option<usize>], emitted
                 };
                 ops.push(POp::New { t: *u, parent, shape: *shape, vals: vals.clone() });
             }
-            POp::Rec { .. } => ops.push(op.clone()),
+            POp::Rec { .. } | POp::Close { .. } => ops.push(op.clone()),
             POp::Enter { t: u, .. } | POp::Exit { t: u, .. } => {
                 if *u == t {
                     ops.push(op.clone())
@@ -633,11 +814,11 @@ fn check_thread_independence(prog: &Program, resolved: &[Option<usize>], emitted
             }
         }
     }
-    let proj = Program { filter: prog.filter.clone(), threads: prog.threads, ops };
+    let proj = Program { filter: prog.filter.clone(), threads: prog.threads, layer: prog.layer, ops };
     let mut got = vec![];
     execute(&proj, |_, op, a| {
         if let POp::Emit { .. } = op {
-            got.push(a.emitted.first().map(|l| l.labels.clone()));
+            got.push(a.emitted.iter().find(|l| is_register(l)).map(|l| l.labels.clone()));
         }
     });
     out.count("independence-reruns");
@@ -652,7 +833,10 @@ fn check_thread_independence(prog: &Program, resolved: &[Option<usize>], emitted
 // ---------------------------------------------------------------------------------------------
 // generators
 
-const LABEL_NAMES: &[&str] = &["a", "b", "c", "k.x", "svc", "env", "zz"];
+const LABEL_NAMES: &[&str] = &["a", "b", "c", "k.x", "svc", "env", "zz", "a00", "b07", "w31", "A", "ab", "k", "a0"];
+/// allow-list entries: the field names, and near misses of them (case, prefix, extension, blank, dot, empty)
+const ALLOW_NAMES: &[&str] =
+    &["a", "b", "c", "k.x", "zz", "svc", "A", "ab", "k", "k.", "a ", " a", "a0", "a00", "a0", "b07", "w3", "w31", "B", "K.X", ""];
 const METRIC_NAMES: &[&str] = &["m", "reqs", "lat", "login_attempts", "a"];
 const STR_VALUES: &[&str] = &["x", "y", "", "ferris", "true", "42", "-1", "a", "\"q\"", "é", "日本"];
 
@@ -697,14 +881,29 @@ fn gen_labels(r: &mut Rng) -> Vec<(String, String)> {
     v
 }
 
-fn gen_program(r: &mut Rng) -> Program {
+/// the generator's copy of `registry::stack::SpanStack` (it has to know which span is current to know who is
+/// whose child, and which spans are on no stack, before it may drop a handle)
+fn g_push(st: &mut Vec<(usize, bool)>, id: usize) {
+    let dup = st.iter().any(|(i, _)| *i == id);
+    st.push((id, dup));
+}
+fn g_pop(st: &mut Vec<(usize, bool)>, id: usize) {
+    if let Some(p) = st.iter().rposition(|(i, _)| *i == id) {
+        st.remove(p);
+    }
+}
+fn g_current(st: &[(usize, bool)]) -> Option<usize> {
+    st.iter().rev().find(|(_, d)| !*d).map(|(i, _)| *i)
+}
+
+fn gen_program(r: &mut Rng, thorough: bool) -> Program {
     let threads = 1 + r.weighted(&[10, 7, 3]);
     let filter = match r.weighted(&[8, 7, 5]) {
         0 => FilterSpec::All,
         1 => {
             let mut names = vec![];
-            for n in ["a", "b", "c", "k.x", "zz", "svc"] {
-                if r.chance(1, 2) {
+            for n in ALLOW_NAMES {
+                if r.chance(1, 3) {
                     names.push(n.to_string());
                 }
             }
@@ -715,56 +914,76 @@ fn gen_program(r: &mut Rng) -> Program {
             FilterSpec::Custom(m, r.below(m as usize) as u64)
         }
     };
-    let n_ops = r.range(5, 40);
+    let layer = !r.chance(1, 14);
+    // flavour of the program: how often a new span is a wide one / a near-miss one, how eagerly handles are dropped
+    let wide_pct = *r.pick(&[0usize, 0, 20, 50, 80]);
+    let near_pct = *r.pick(&[0usize, 10, 10, 40]);
+    let close_w = *r.pick(&[0usize, 8, 8, 20, 35]);
+    let n_ops = if thorough && r.chance(1, 4) { r.range(40, 120) } else if wide_pct >= 50 { r.range(10, 60) } else { r.range(5, 40) };
     let mut ops = vec![];
     let mut shapes: Vec<usize> = vec![]; // shape of every span created so far
-    let mut stacks: Vec<Vec<usize>> = vec![vec![]; threads]; // generator's idea of what is entered
+    let mut alive: Vec<bool> = vec![]; // the harness still holds the handle
+    let mut parent: Vec<Option<usize>> = vec![];
+    let mut stacks: Vec<Vec<(usize, bool)>> = vec![vec![]; threads];
     while ops.len() < n_ops {
         let t = r.below(threads);
-        let w = if shapes.is_empty() { 0 } else { r.weighted(&[25, 18, 12, 15, 30]) };
+        let live: Vec<usize> = (0..shapes.len()).filter(|i| alive[*i]).collect();
+        let w = if live.is_empty() { 0 } else { r.weighted(&[25, 18, 12, 15, 30, close_w]) };
         match w {
             0 => {
-                let shape = r.below(SHAPES.len());
-                let parent = if shapes.is_empty() {
+                let shape = if r.below(100) < wide_pct {
+                    *r.pick(WIDE_SHAPES)
+                } else if r.below(100) < near_pct {
+                    *r.pick(NEAR_SHAPES)
+                } else {
+                    r.below(12)
+                };
+                let par = if live.is_empty() {
                     ParSpec::Ctx
                 } else {
                     match r.weighted(&[14, 2, 4]) {
                         0 => ParSpec::Ctx,
                         1 => ParSpec::Root,
-                        _ => ParSpec::Of(r.below(shapes.len())),
+                        _ => ParSpec::Of(*r.pick(&live)),
                     }
                 };
-                let vals = SHAPES[shape].iter().map(|_| gen_val(r, true)).collect();
-                ops.push(POp::New { t, parent, shape, vals });
+                parent.push(match &par {
+                    ParSpec::Ctx => g_current(&stacks[t]),
+                    ParSpec::Root => None,
+                    ParSpec::Of(p) => Some(*p),
+                });
+                // wide spans mostly carry values (an Empty field makes no label)
+                let allow_empty = shape < 12 || r.chance(1, 4);
+                let vals = SHAPES[shape].iter().map(|_| gen_val(r, allow_empty)).collect();
+                ops.push(POp::New { t, parent: par, shape, vals });
                 shapes.push(shape);
+                alive.push(true);
                 if r.chance(3, 5) {
                     let id = shapes.len() - 1;
                     ops.push(POp::Enter { t, id });
-                    stacks[t].push(id);
+                    g_push(&mut stacks[t], id);
                 }
             }
             1 => {
-                let id = r.below(shapes.len());
+                let id = *r.pick(&live);
                 ops.push(POp::Enter { t, id });
-                stacks[t].push(id);
+                g_push(&mut stacks[t], id);
             }
             2 => {
                 let id = if !stacks[t].is_empty() && r.chance(15, 20) {
-                    *stacks[t].last().unwrap()
+                    stacks[t].last().unwrap().0
                 } else if !stacks[t].is_empty() && r.chance(3, 5) {
-                    *r.pick(&stacks[t])
+                    r.pick(&stacks[t]).0
                 } else {
-                    r.below(shapes.len())
+                    *r.pick(&live)
                 };
                 ops.push(POp::Exit { t, id });
-                if let Some(p) = stacks[t].iter().rposition(|x| *x == id) {
-                    stacks[t].remove(p);
-                }
+                g_pop(&mut stacks[t], id);
             }
             3 => {
                 // prefer spans that are entered somewhere (their records are what emissions can see)
-                let entered: Vec<usize> = stacks.iter().flatten().cloned().collect();
-                let id = if !entered.is_empty() && r.chance(2, 3) { *r.pick(&entered) } else { r.below(shapes.len()) };
+                let entered: Vec<usize> = stacks.iter().flatten().map(|(i, _)| *i).collect();
+                let id = if !entered.is_empty() && r.chance(2, 3) { *r.pick(&entered) } else { *r.pick(&live) };
                 let names = SHAPES[shapes[id]];
                 if names.is_empty() {
                     continue;
@@ -772,9 +991,32 @@ fn gen_program(r: &mut Rng) -> Program {
                 let field = names[r.below(names.len())];
                 ops.push(POp::Rec { t, id, field, val: gen_val(r, false) });
             }
-            _ => {
+            4 => {
                 let name = if r.chance(1, 10) { wild_string(r, true) } else { r.pick_str(METRIC_NAMES).to_string() };
                 ops.push(POp::Emit { t, how: r.below(5), name, labels: gen_labels(r) });
+            }
+            _ => {
+                // drop the handle of a span nothing else keeps alive; if there is none, leave a span instead
+                let closable: Vec<usize> = live
+                    .iter()
+                    .cloned()
+                    .filter(|id| {
+                        !stacks.iter().flatten().any(|(i, _)| i == id) && !(0..shapes.len()).any(|j| alive[j] && parent[j] == Some(*id))
+                    })
+                    .collect();
+                if closable.is_empty() {
+                    let entered: Vec<(usize, usize)> =
+                        stacks.iter().enumerate().filter_map(|(u, st)| st.last().map(|(i, _)| (u, *i))).collect();
+                    if let Some((u, id)) = entered.first().cloned() {
+                        ops.push(POp::Exit { t: u, id });
+                        g_pop(&mut stacks[u], id);
+                    }
+                    continue;
+                }
+                // prefer the most recent (the leaf of a wide stack) half of the time
+                let id = if r.chance(1, 2) { *closable.last().unwrap() } else { *r.pick(&closable) };
+                ops.push(POp::Close { t, id });
+                alive[id] = false;
             }
         }
     }
@@ -782,7 +1024,7 @@ fn gen_program(r: &mut Rng) -> Program {
     for t in 0..threads {
         ops.push(POp::Emit { t, how: r.below(5), name: r.pick_str(METRIC_NAMES).to_string(), labels: gen_labels(r) });
     }
-    Program { filter, threads, ops }
+    Program { filter, threads, layer, ops }
 }
 
 // ---------------------------------------------------------------------------------------------
@@ -790,6 +1032,9 @@ fn gen_program(r: &mut Rng) -> Program {
 
 fn s(x: &str) -> Val {
     Val::Str(x.to_string())
+}
+fn strs(prefix: &str, n: usize) -> Vec<Val> {
+    (0..n).map(|i| Val::Str(format!("{}{}", prefix, i))).collect()
 }
 fn l(kv: &[(&str, &str)]) -> Vec<(String, String)> {
     kv.iter().map(|(k, v)| (k.to_string(), v.to_string())).collect()
@@ -809,6 +1054,7 @@ fn corpus() -> Vec<(&'static str, Program)> {
             Program {
                 filter: FilterSpec::All,
                 threads: 1,
+                layer: true,
                 ops: vec![
                     new(0, ParSpec::Ctx, 6, vec![s("oa"), s("ob"), s("oc")]),
                     Enter { t: 0, id: 0 },
@@ -827,6 +1073,7 @@ fn corpus() -> Vec<(&'static str, Program)> {
             Program {
                 filter: FilterSpec::All,
                 threads: 1,
+                layer: true,
                 ops: vec![
                     new(0, ParSpec::Ctx, 3, vec![s("pa"), Val::Empty]),
                     Enter { t: 0, id: 0 },
@@ -851,6 +1098,7 @@ fn corpus() -> Vec<(&'static str, Program)> {
             Program {
                 filter: FilterSpec::All,
                 threads: 1,
+                layer: true,
                 ops: vec![
                     new(0, ParSpec::Root, 4, vec![s("pb"), s("pa")]),
                     new(0, ParSpec::Of(0), 6, vec![Val::Empty, Val::Empty, s("c")]),
@@ -870,6 +1118,7 @@ fn corpus() -> Vec<(&'static str, Program)> {
                 // metric name "m" = 109, key "a" = 97; value "x" = 120 → 326 % 2 = 0 (rejected), "y" = 121 → admitted
                 filter: FilterSpec::Custom(2, 0),
                 threads: 1,
+                layer: true,
                 ops: vec![
                     new(0, ParSpec::Ctx, 1, vec![s("y")]),
                     Enter { t: 0, id: 0 },
@@ -886,6 +1135,7 @@ fn corpus() -> Vec<(&'static str, Program)> {
             Program {
                 filter: FilterSpec::All,
                 threads: 1,
+                layer: true,
                 ops: vec![
                     emit(0, 0, "m", &[("a", "1"), ("a", "2")]),
                     new(0, ParSpec::Ctx, 0, vec![]),
@@ -905,6 +1155,7 @@ fn corpus() -> Vec<(&'static str, Program)> {
             Program {
                 filter: FilterSpec::All,
                 threads: 1,
+                layer: true,
                 ops: vec![
                     new(0, ParSpec::Root, 1, vec![s("A")]),
                     new(0, ParSpec::Root, 2, vec![s("B")]),
@@ -927,6 +1178,7 @@ fn corpus() -> Vec<(&'static str, Program)> {
             Program {
                 filter: FilterSpec::All,
                 threads: 2,
+                layer: true,
                 ops: vec![
                     new(0, ParSpec::Ctx, 1, vec![s("t0")]),
                     Enter { t: 0, id: 0 },
@@ -950,6 +1202,7 @@ fn corpus() -> Vec<(&'static str, Program)> {
             Program {
                 filter: FilterSpec::Allow(vec!["b".into(), "k.x".into()]),
                 threads: 1,
+                layer: true,
                 ops: vec![
                     new(0, ParSpec::Ctx, 10, vec![s("1"), s("2"), s("3"), s("4")]),
                     Enter { t: 0, id: 0 },
@@ -959,10 +1212,120 @@ fn corpus() -> Vec<(&'static str, Program)> {
             },
         ),
         (
+            "pool: a wide leaf (40 labels) closes, then field-less spans and a record() reuse the pooled maps",
+            Program {
+                filter: FilterSpec::All,
+                threads: 1,
+                layer: true,
+                ops: vec![
+                    new(0, ParSpec::Ctx, 12, strs("va", 20)),
+                    Enter { t: 0, id: 0 },
+                    new(0, ParSpec::Ctx, 13, strs("vb", 20)),
+                    emit(0, 0, "m", &[("a00", "own")]),
+                    Close { t: 0, id: 1 },
+                    Exit { t: 0, id: 0 },
+                    Close { t: 0, id: 0 },
+                    new(0, ParSpec::Root, 0, vec![]),
+                    new(0, ParSpec::Root, 0, vec![]),
+                    new(0, ParSpec::Root, 1, vec![Val::Empty]),
+                    new(0, ParSpec::Root, 2, vec![s("fresh")]),
+                    Enter { t: 0, id: 2 },
+                    emit(0, 0, "m", &[("svc", "x")]),
+                    Exit { t: 0, id: 2 },
+                    Enter { t: 0, id: 3 },
+                    emit(0, 1, "m", &[]),
+                    Exit { t: 0, id: 3 },
+                    Enter { t: 0, id: 4 },
+                    emit(0, 2, "m", &[("a", "1"), ("a", "2")]),
+                    Rec { t: 0, id: 4, field: "a", val: s("late") },
+                    emit(0, 0, "m", &[]),
+                    Exit { t: 0, id: 4 },
+                    Enter { t: 0, id: 5 },
+                    emit(0, 4, "m", &[]),
+                    // a 32-field span alone, closed; then a record() whose temporary comes out of the pool
+                    new(0, ParSpec::Root, 15, strs("w", 32)),
+                    Close { t: 0, id: 6 },
+                    Rec { t: 0, id: 5, field: "b", val: s("again") },
+                    new(0, ParSpec::Ctx, 0, vec![]),
+                    Enter { t: 0, id: 7 },
+                    emit(0, 0, "m", &[]),
+                ],
+            },
+        ),
+        (
+            "pool: spans closed on one thread, later spans of another thread",
+            Program {
+                filter: FilterSpec::Allow(vec!["a".into(), "a00".into(), "b07".into()]),
+                threads: 2,
+                layer: true,
+                ops: vec![
+                    new(1, ParSpec::Ctx, 12, strs("va", 20)),
+                    Enter { t: 1, id: 0 },
+                    new(1, ParSpec::Ctx, 13, strs("vb", 20)),
+                    Enter { t: 1, id: 1 },
+                    emit(1, 0, "m", &[]),
+                    Exit { t: 1, id: 1 },
+                    Exit { t: 1, id: 0 },
+                    Close { t: 1, id: 1 },
+                    Close { t: 1, id: 0 },
+                    new(0, ParSpec::Ctx, 0, vec![]),
+                    new(0, ParSpec::Ctx, 0, vec![]),
+                    new(0, ParSpec::Ctx, 0, vec![]),
+                    Enter { t: 0, id: 2 },
+                    emit(0, 0, "m", &[("a", "own")]),
+                    Enter { t: 0, id: 3 },
+                    emit(0, 0, "m", &[("a", "own")]),
+                    Enter { t: 0, id: 4 },
+                    emit(0, 0, "m", &[("a", "own")]),
+                    emit(1, 0, "m", &[]),
+                ],
+            },
+        ),
+        (
+            "subscriber without a MetricsLayer: spans have no labels, keys pass unchanged",
+            Program {
+                filter: FilterSpec::All,
+                threads: 1,
+                layer: false,
+                ops: vec![
+                    new(0, ParSpec::Ctx, 6, vec![s("oa"), s("ob"), s("oc")]),
+                    Enter { t: 0, id: 0 },
+                    emit(0, 0, "m", &[("a", "ma")]),
+                    Rec { t: 0, id: 0, field: "a", val: s("late") },
+                    new(0, ParSpec::Ctx, 1, vec![s("ia")]),
+                    Enter { t: 0, id: 1 },
+                    emit(0, 4, "m", &[]),
+                    Exit { t: 0, id: 1 },
+                    Close { t: 0, id: 1 },
+                    emit(0, 2, "m", &[("a", "1"), ("a", "2")]),
+                ],
+            },
+        ),
+        (
+            "allow-list near misses: case, prefix, extension, blank, parent of a dotted name",
+            Program {
+                filter: FilterSpec::Allow(vec!["A".into(), "k".into(), "a0".into(), " a".into(), "a ".into(), "k.".into(), "".into()]),
+                threads: 1,
+                layer: true,
+                ops: vec![
+                    new(0, ParSpec::Ctx, 16, vec![s("vA"), s("vab"), s("vk"), s("va")]),
+                    Enter { t: 0, id: 0 },
+                    emit(0, 0, "m", &[]),
+                    new(0, ParSpec::Ctx, 17, vec![s("k2"), s("kx"), s("ab2"), s("a0v")]),
+                    Enter { t: 0, id: 1 },
+                    emit(0, 0, "m", &[("ab", "own")]),
+                    new(0, ParSpec::Ctx, 12, strs("va", 20)),
+                    Enter { t: 0, id: 2 },
+                    emit(0, 0, "m", &[]),
+                ],
+            },
+        ),
+        (
             "a field name twice in one span",
             Program {
                 filter: FilterSpec::Allow(vec![]),
                 threads: 1,
+                layer: true,
                 ops: vec![
                     new(0, ParSpec::Ctx, 11, vec![s("first"), s("second")]),
                     Enter { t: 0, id: 0 },
@@ -990,10 +1353,10 @@ pub fn run(cfg: &Cfg, out: &mut Out) {
     for i in 0..cfg.cases {
         let mut r = root.fork(i as u64);
         out.case(&format!("seed={} i={}", cfg.seed, i));
-        let prog = gen_program(&mut r);
+        let prog = gen_program(&mut r, cfg.thorough);
         for op in &prog.ops {
             match op {
-                POp::New { parent, vals, .. } => {
+                POp::New { parent, vals, shape, .. } => {
                     out.count(match parent {
                         ParSpec::Ctx => "new:contextual",
                         ParSpec::Root => "new:root",
@@ -1002,6 +1365,12 @@ pub fn run(cfg: &Cfg, out: &mut Out) {
                     for v in vals {
                         out.count(&format!("value:{}", v.kind()));
                     }
+                    if WIDE_SHAPES.contains(shape) {
+                        out.count("new:wide shape (20-32 fields)");
+                    }
+                    if NEAR_SHAPES.contains(shape) {
+                        out.count("new:near-miss names");
+                    }
                 }
                 POp::Rec { val, .. } => {
                     out.count("record");
@@ -1009,6 +1378,7 @@ pub fn run(cfg: &Cfg, out: &mut Out) {
                 }
                 POp::Enter { .. } => out.count("enter"),
                 POp::Exit { .. } => out.count("exit"),
+                POp::Close { .. } => out.count("close (handle dropped, span closes)"),
                 POp::Emit { labels, .. } => {
                     out.count("emit");
                     if !distinct_names(labels) {
